@@ -6,6 +6,10 @@ import glob, json, os, subprocess, sys, time
 
 ROOT = '/verif/seeded'
 only = sys.argv[1:]
+# development aid: SEED_TREE=<scratch checkout of /repo HEAD> runs the matrix there
+# (through VCHECK_TREE) so that several shards can run side by side; default /repo
+TREE = os.environ.get('SEED_TREE', '/repo')
+ENV = '' if TREE == '/repo' else 'VCHECK_TREE=%s ' % TREE
 
 
 def sh(cmd, **kw):
@@ -13,7 +17,7 @@ def sh(cmd, **kw):
 
 
 def main():
-    if sh('git -C /repo diff --quiet').returncode != 0:
+    if sh('git -C %s diff --quiet' % TREE).returncode != 0:
         print('repo dirty'); sys.exit(9)
     rows = []
     for d in sorted(glob.glob(ROOT + '/C*-*')):
@@ -22,7 +26,7 @@ def main():
             continue
         meta = json.load(open(d + '/meta.json'))
         props = [meta['property']] + meta.get('also', [])
-        if sh('git -C /repo apply %s/patch.diff' % d).returncode != 0:
+        if sh('git -C %s apply %s/patch.diff' % (TREE, d)).returncode != 0:
             meta['detected_by'] = {'error': 'patch does not apply to current tree'}
             meta['verdict'] = 'PATCH-DOES-NOT-APPLY'
             rows.append((name, meta['property'], 'PATCH-DOES-NOT-APPLY', ''))
@@ -33,13 +37,13 @@ def main():
         try:
             for p in props:
                 t0 = time.time()
-                r = sh('cd /verif && /venv/bin/python -m vcheck run %s --tier quick' % p)
+                r = sh('cd /verif && %s/venv/bin/python -m vcheck run %s --tier quick' % (ENV, p))
                 groups = [l.strip() for l in r.stdout.split('\n') if l.startswith('   ') and "('" in l][:3]
                 det[p] = {'exit': r.returncode,
                           'violation_lines': r.stdout.count('\nVIOLATION') + r.stdout.startswith('VIOLATION'),
                           'first_groups': groups, 'wall_s': round(time.time() - t0, 1)}
         finally:
-            sh('git -C /repo checkout -- .')
+            sh('git -C %s checkout -- .' % TREE)
         meta['detected_by'] = det
         meta['verdict'] = 'detected' if any(v['exit'] == 1 for v in det.values()) else 'MISSED'
         json.dump(meta, open(d + '/meta.json', 'w'), indent=1)
